@@ -554,17 +554,70 @@ Lemma nth_error_in_range {A} (c : list A) k : k < length c -> exists x, nth_erro
 Proof.
   intro H. destruct (nth_error c k) eqn:E; [eauto|]. apply nth_error_None in E. lia.
 Qed.
+
+Section DqValidateP.
+Variable two : list nat.
+Local Notation dq_group := (Validation.dq_group two).
+Local Notation dq_groups := (Validation.dq_groups two).
+Local Notation api_validate_qpd := (Validation.api_validate_qpd two).
+Section MembersP.
+Variable pair : bool.
+Local Notation dq_members := (Validation.dq_members two pair).
 Lemma dq_members_cases c b0 g : (forall k, In k g -> k < length c) ->
   dq_members c b0 g = Proceeds \/ dq_members c b0 g = Refused.
 Proof.
   induction g as [|k r IH]; intro H; simpl; [auto|].
   destruct (nth_error_in_range c k (H k (or_introl eq_refl))) as [x E]. rewrite E.
-  destruct x as [b n bid|]; [|auto]. destruct (b =? b0); [apply IH; intros; apply H; now right | auto].
+  destruct x as [b n bid|]; [|auto]. destruct (negb (b =? b0)); [auto|].
+  destruct (pair && dq_is_two two k); [auto|]. apply IH; intros; apply H; now right.
 Qed.
+Lemma dq_members_other c b0 g k :
+  (forall k', In k' g -> k' < length c) -> In k g -> nth_error c k = Some DOther -> dq_members c b0 g = Refused.
+Proof.
+  induction g as [|k1 r IH]; intros H Hin E; [destruct Hin|]. simpl.
+  destruct Hin as [-> | Hin]; [now rewrite E|].
+  destruct (nth_error_in_range c k1 (H k1 (or_introl eq_refl))) as [x E1]. rewrite E1.
+  destruct x as [b n bid|]; [|reflexivity]. destruct (negb (b =? b0)); [reflexivity|].
+  destruct (pair && dq_is_two two k1); [reflexivity|].
+  apply IH; auto. intros; apply H; now right.
+Qed.
+Lemma dq_members_mismatch c b0 g k b n bid :
+  (forall k', In k' g -> k' < length c) -> In k g -> nth_error c k = Some (DQ b n bid) -> b <> b0 ->
+  dq_members c b0 g = Refused.
+Proof.
+  induction g as [|k1 r IH]; intros H Hin E Hb; [destruct Hin|]. simpl.
+  destruct Hin as [-> | Hin]; [now rewrite E, (eqb_false_of_neq _ _ Hb)|].
+  destruct (nth_error_in_range c k1 (H k1 (or_introl eq_refl))) as [x E1]. rewrite E1.
+  destruct x as [b' n' bid'|]; [|reflexivity]. destruct (negb (b' =? b0)); [reflexivity|].
+  destruct (pair && dq_is_two two k1); [reflexivity|].
+  eapply IH; eauto. intros; apply H; now right.
+Qed.
+(* 50945eb: a TwoQubitQPDGate at any position of a two-element decomposition *)
+Lemma dq_members_two c b0 g k :
+  pair = true -> (forall k', In k' g -> k' < length c) -> In k g -> dq_is_two two k = true ->
+  dq_members c b0 g = Refused.
+Proof.
+  intro Hp. induction g as [|k1 r IH]; intros H Hin E; [destruct Hin|]. simpl.
+  destruct (nth_error_in_range c k1 (H k1 (or_introl eq_refl))) as [x E1]. rewrite E1.
+  destruct x as [b' n' bid'|]; [|reflexivity]. destruct (negb (b' =? b0)); [reflexivity|].
+  destruct Hin as [-> | Hin]; [now rewrite Hp, E|].
+  destruct (pair && dq_is_two two k1); [reflexivity|].
+  apply IH; auto. intros; apply H; now right.
+Qed.
+Lemma dq_members_other_total c b0 g k :
+  In k g -> nth_error c k = Some DOther -> dq_members c b0 g <> Proceeds.
+Proof.
+  induction g as [|k1 r IH]; intros Hin E; [destruct Hin|]. simpl.
+  destruct Hin as [-> | Hin]; [rewrite E; congruence|].
+  destruct (nth_error c k1) as [[b n bid|]|]; try congruence.
+  destruct (negb (b =? b0)); [congruence|]. destruct (pair && dq_is_two two k1); [congruence | now apply IH].
+Qed.
+End MembersP.
+
 Lemma dq_group_cases c g : (forall k, In k g -> k < length c) ->
   dq_group c g = Proceeds \/ dq_group c g = Refused.
 Proof.
-  intro H. unfold dq_group. destruct (negb _); [auto|]. destruct g as [|k0 r]; [auto|].
+  intro H. unfold Validation.dq_group. destruct (negb _); [auto|]. destruct g as [|k0 r]; [auto|].
   destruct (nth_error_in_range c k0 (H k0 (or_introl eq_refl))) as [x E]. rewrite E.
   destruct x; [now apply dq_members_cases | auto].
 Qed.
@@ -586,38 +639,15 @@ Proof.
 Qed.
 Lemma validate_refused_of_group c ids g :
   ids_in_range c ids -> In g ids -> dq_group c g = Refused -> api_validate_qpd c ids = Refused.
-Proof. intros H1 H2 H3. unfold api_validate_qpd. now rewrite (dq_groups_refused c ids g H1 H2 H3). Qed.
-Lemma decompose_of_validate_refused i :
-  api_validate_qpd (dq_circ i) (dq_ids i) = Refused -> api_decompose i = Refused.
-Proof. intro H. unfold api_decompose, dq_run. now rewrite H. Qed.
-
+Proof. intros H1 H2 H3. unfold Validation.api_validate_qpd. now rewrite (dq_groups_refused c ids g H1 H2 H3). Qed.
 Lemma dq_group_size c g : length g <> 1 -> length g <> 2 -> dq_group c g = Refused.
 Proof.
-  intros H1 H2. unfold dq_group. now rewrite (eqb_false_of_neq _ _ H1), (eqb_false_of_neq _ _ H2).
-Qed.
-Lemma dq_members_other c b0 g k :
-  (forall k', In k' g -> k' < length c) -> In k g -> nth_error c k = Some DOther -> dq_members c b0 g = Refused.
-Proof.
-  induction g as [|k1 r IH]; intros H Hin E; [destruct Hin|]. simpl.
-  destruct Hin as [-> | Hin]; [now rewrite E|].
-  destruct (nth_error_in_range c k1 (H k1 (or_introl eq_refl))) as [x E1]. rewrite E1.
-  destruct x as [b n bid|]; [|reflexivity]. destruct (b =? b0); [|reflexivity].
-  apply IH; auto. intros; apply H; now right.
-Qed.
-Lemma dq_members_mismatch c b0 g k b n bid :
-  (forall k', In k' g -> k' < length c) -> In k g -> nth_error c k = Some (DQ b n bid) -> b <> b0 ->
-  dq_members c b0 g = Refused.
-Proof.
-  induction g as [|k1 r IH]; intros H Hin E Hb; [destruct Hin|]. simpl.
-  destruct Hin as [-> | Hin]; [now rewrite E, (eqb_false_of_neq _ _ Hb)|].
-  destruct (nth_error_in_range c k1 (H k1 (or_introl eq_refl))) as [x E1]. rewrite E1.
-  destruct x as [b' n' bid'|]; [|reflexivity]. destruct (b' =? b0); [|reflexivity].
-  eapply IH; eauto. intros; apply H; now right.
+  intros H1 H2. unfold Validation.dq_group. now rewrite (eqb_false_of_neq _ _ H1), (eqb_false_of_neq _ _ H2).
 Qed.
 Lemma dq_group_non_qpd c g k :
   (forall k', In k' g -> k' < length c) -> In k g -> nth_error c k = Some DOther -> dq_group c g = Refused.
 Proof.
-  intros H Hin E. unfold dq_group. destruct (negb _); [reflexivity|].
+  intros H Hin E. unfold Validation.dq_group. destruct (negb _); [reflexivity|].
   destruct g as [|k0 r]; [reflexivity|].
   destruct (nth_error_in_range c k0 (H k0 (or_introl eq_refl))) as [x E0]. rewrite E0.
   destruct x; [|reflexivity]. eapply dq_members_other; eauto.
@@ -627,16 +657,67 @@ Lemma dq_group_mismatch c k0 r k b0 n0 bid0 b n bid :
   nth_error c k0 = Some (DQ b0 n0 bid0) -> nth_error c k = Some (DQ b n bid) -> b <> b0 ->
   dq_group c (k0 :: r) = Refused.
 Proof.
-  intros H Hin E0 E Hb. unfold dq_group. destruct (negb _); [reflexivity|]. rewrite E0.
+  intros H Hin E0 E Hb. unfold Validation.dq_group. destruct (negb _); [reflexivity|]. rewrite E0.
   eapply dq_members_mismatch; eauto.
+Qed.
+Lemma dq_group_two c g k :
+  (forall k', In k' g -> k' < length c) -> length g = 2 -> In k g -> dq_is_two two k = true ->
+  dq_group c g = Refused.
+Proof.
+  intros H HL Hin E. unfold Validation.dq_group. rewrite HL. simpl.
+  destruct g as [|k0 r]; [reflexivity|].
+  destruct (nth_error_in_range c k0 (H k0 (or_introl eq_refl))) as [x E0]. rewrite E0.
+  destruct x; [|reflexivity]. eapply dq_members_two; eauto.
+Qed.
+Lemma dq_repeated_refused c ids :
+  ids_in_range c ids -> dq_repeated ids = true -> api_validate_qpd c ids = Refused.
+Proof.
+  intros H1 H2. unfold Validation.api_validate_qpd. rewrite H2. simpl.
+  apply andthen_refused_r. now apply dq_groups_cases.
 Qed.
 Lemma dq_total c ids : ids_in_range c ids -> dq_total_mismatch c ids = true -> api_validate_qpd c ids = Refused.
 Proof.
-  intros H1 H2. unfold api_validate_qpd. rewrite H2. apply andthen_refused_r. now apply dq_groups_cases.
+  intros H1 H2. unfold Validation.api_validate_qpd. rewrite H2.
+  rewrite (andthen_rif_refused (dq_repeated ids) (refuse_if true) eq_refl).
+  apply andthen_refused_r. now apply dq_groups_cases.
 Qed.
+(* totality: without the in-range hypothesis the call still never proceeds (ValueError or IndexError) *)
+Lemma dq_groups_not_ok c ids g : In g ids -> dq_group c g <> Proceeds -> dq_groups c ids <> Proceeds.
+Proof.
+  induction ids as [|g0 r IH]; intros Hin Hg; [destruct Hin|]. simpl.
+  destruct Hin as [-> | Hin].
+  - destruct (dq_group c g) as [[]| |]; simpl; congruence.
+  - destruct (dq_group c g0) as [[]| |]; simpl; [now apply IH | congruence | congruence].
+Qed.
+Lemma dq_group_non_qpd_total c g k : In k g -> nth_error c k = Some DOther -> dq_group c g <> Proceeds.
+Proof.
+  intros Hin E. unfold Validation.dq_group. destruct (negb _); [congruence|].
+  destruct g as [|k0 r]; [congruence|].
+  destruct (nth_error c k0) as [[b n bid|]|]; try congruence. eapply dq_members_other_total; eauto.
+Qed.
+End DqValidateP.
 
+Lemma has_dup_nth l : forall a b, a < b -> b < length l -> nth a l 0 = nth b l 0 -> has_dup l = true.
+Proof.
+  induction l as [|x r IH]; intros a b Hab Hb E; [simpl in Hb; lia|]. simpl.
+  destruct a as [|a].
+  - destruct b as [|b]; [lia|]. simpl in E, Hb.
+    assert (X : existsb (Nat.eqb x) r = true).
+    { apply existsb_exists. exists (nth b r 0). split; [apply nth_In; lia | apply Nat.eqb_eq; exact E]. }
+    now rewrite X.
+  - destruct b as [|b]; [lia|]. simpl in E, Hb. rewrite (IH a b); [apply orb_true_r | lia | lia | exact E].
+Qed.
+Lemma decompose_of_validate_refused i : dq_validate i = Refused -> api_decompose i = Refused.
+Proof. intro H. unfold api_decompose, dq_run. now rewrite H. Qed.
+Lemma decompose_not_ok_of_group i g :
+  In g (dq_ids i) -> Validation.dq_group (dq_two i) (dq_circ i) g <> Proceeds -> api_decompose i <> Proceeds.
+Proof.
+  intros H1 H2. pose proof (dq_groups_not_ok _ _ _ _ H1 H2) as H.
+  unfold api_decompose, dq_run, dq_validate, api_validate_qpd.
+  destruct (dq_groups (dq_two i) (dq_circ i) (dq_ids i)) as [[]| |]; simpl; congruence.
+Qed.
 Lemma dq_map_count i ms :
-  api_validate_qpd (dq_circ i) (dq_ids i) = Proceeds -> dq_maps i = Some ms ->
+  dq_validate i = Proceeds -> dq_maps i = Some ms ->
   length (dq_ids i) <> length ms -> api_decompose i = Refused.
 Proof.
   intros H1 H2 H3. unfold api_decompose, dq_run. rewrite H1, H2, (eqb_false_of_neq _ _ H3). reflexivity.
@@ -655,7 +736,7 @@ Proof.
   unfold dq_gate_ok in F. rewrite E, Hr in F. discriminate.
 Qed.
 Lemma dq_map_bad i ms j k b n bid :
-  api_validate_qpd (dq_circ i) (dq_ids i) = Proceeds -> dq_maps i = Some ms ->
+  dq_validate i = Proceeds -> dq_maps i = Some ms ->
   j < length (dq_ids i) -> In k (nth j (dq_ids i) []) -> nth_error (dq_circ i) k = Some (DQ b n bid) ->
   map_ok (nth j ms None) n = false ->
   api_decompose i = Refused.
@@ -666,7 +747,7 @@ Proof.
   rewrite (dq_check_false _ _ _ j k b n bid L Hj Hk E Hr). reflexivity.
 Qed.
 Lemma dq_map_range i ms j k b n bid z :
-  api_validate_qpd (dq_circ i) (dq_ids i) = Proceeds -> dq_maps i = Some ms ->
+  dq_validate i = Proceeds -> dq_maps i = Some ms ->
   j < length (dq_ids i) -> In k (nth j (dq_ids i) []) -> nth_error (dq_circ i) k = Some (DQ b n bid) ->
   nth j ms None = Some z -> (z < 0 \/ Z.of_nat n <= z)%Z ->
   api_decompose i = Refused.
@@ -674,13 +755,13 @@ Proof.
   intros H1 H2 Hj Hk E Hz Hr. eapply dq_map_bad; eauto. rewrite Hz. simpl. now apply in_range_false.
 Qed.
 Lemma dq_map_none i ms j k b n bid :
-  api_validate_qpd (dq_circ i) (dq_ids i) = Proceeds -> dq_maps i = Some ms ->
+  dq_validate i = Proceeds -> dq_maps i = Some ms ->
   j < length (dq_ids i) -> In k (nth j (dq_ids i) []) -> nth_error (dq_circ i) k = Some (DQ b n bid) ->
   nth j ms None = None -> api_decompose i = Refused.
 Proof. intros H1 H2 Hj Hk E Hz. eapply dq_map_bad; eauto. now rewrite Hz. Qed.
 (* unset basis_id with map_ids omitted: refused, and nothing was touched *)
 Lemma dq_unset_no_maps i k b n :
-  api_validate_qpd (dq_circ i) (dq_ids i) = Proceeds -> dq_maps i = None ->
+  dq_validate i = Proceeds -> dq_maps i = None ->
   nth_error (dq_circ i) k = Some (DQ b n None) ->
   api_decompose i = Refused /\ dq_final i = dq_circ i.
 Proof.
@@ -690,7 +771,7 @@ Qed.
 Lemma dq_frame_no_maps i : dq_maps i = None -> dq_final i = dq_circ i.
 Proof.
   intro H. unfold dq_final, dq_run, dq_stage3. rewrite H.
-  destruct (api_validate_qpd (dq_circ i) (dq_ids i)) as [[]| |]; reflexivity.
+  destruct (dq_validate i) as [[]| |]; reflexivity.
 Qed.
 (* everything up to and including the map-id pre-validation leaves the argument untouched *)
 Lemma dq_frame_partial i :
@@ -701,17 +782,17 @@ Lemma dq_frame_partial i :
 Proof.
   intros Hn [H | H]; [now apply dq_frame_no_maps|].
   revert Hn. unfold api_decompose, dq_final, dq_run, dq_stage3.
-  destruct (api_validate_qpd (dq_circ i) (dq_ids i)) as [[]| |]; simpl; auto.
+  destruct (dq_validate i) as [[]| |]; simpl; auto.
   destruct (dq_maps i) as [ms|] eqn:M; simpl; auto.
   destruct (negb _); simpl; auto. destruct (dq_check _ _); simpl; auto.
   rewrite (H ms eq_refl). simpl. congruence.
 Qed.
 Lemma dq_valid_no_maps i :
-  api_validate_qpd (dq_circ i) (dq_ids i) = Proceeds -> dq_maps i = None -> existsb dq_unset (dq_circ i) = false ->
+  dq_validate i = Proceeds -> dq_maps i = None -> existsb dq_unset (dq_circ i) = false ->
   api_decompose i = Proceeds /\ dq_final i = dq_circ i.
 Proof. intros H1 H2 H3. unfold api_decompose, dq_final, dq_run, dq_stage3. rewrite H1, H2, H3. auto. Qed.
 Lemma dq_valid_maps i ms :
-  api_validate_qpd (dq_circ i) (dq_ids i) = Proceeds -> dq_maps i = Some ms ->
+  dq_validate i = Proceeds -> dq_maps i = Some ms ->
   length (dq_ids i) = length ms -> dq_check (dq_circ i) (combine (dq_ids i) ms) = true ->
   existsb dq_unset (dq_assign (dq_circ i) (combine (dq_ids i) ms)) = false ->
   api_decompose i = Proceeds /\ dq_final i = dq_assign (dq_circ i) (combine (dq_ids i) ms).
@@ -831,41 +912,86 @@ Qed.
 Lemma dq_frame i : api_decompose i <> Proceeds -> dq_covers (dq_circ i) (dq_ids i) -> dq_final i = dq_circ i.
 Proof.
   intros Hn Hcov. revert Hn. unfold api_decompose, dq_final, dq_run, dq_stage3.
-  destruct (api_validate_qpd (dq_circ i) (dq_ids i)) as [[]| |]; simpl; auto.
+  destruct (dq_validate i) as [[]| |]; simpl; auto.
   destruct (dq_maps i) as [ms|]; simpl; auto.
   destruct (length (dq_ids i) =? length ms) eqn:L; simpl; auto.
   destruct (dq_check _ _) eqn:C; simpl; auto.
   apply Nat.eqb_eq in L. rewrite (assign_leaves_none_unset _ _ _ Hcov L C). simpl. congruence.
 Qed.
 
-(* totality: without the in-range hypothesis the call still never proceeds (ValueError or IndexError) *)
-Lemma dq_groups_not_ok c ids g : In g ids -> dq_group c g <> Proceeds -> dq_groups c ids <> Proceeds.
+(* ----- since 50945eb: a circuit/instruction_ids pair that passes _validate_qpd_instructions covers every QPD gate
+   (no index repeated, every index a QPD gate, as many indices as QPD gates), hence the frame holds unconditionally ----- *)
+Lemma dq_members_ok_DQ two pair c b0 g :
+  dq_members two pair c b0 g = Proceeds -> forall k, In k g -> exists b n bid, nth_error c k = Some (DQ b n bid).
 Proof.
-  induction ids as [|g0 r IH]; intros Hin Hg; [destruct Hin|]. simpl.
-  destruct Hin as [-> | Hin].
-  - destruct (dq_group c g) as [[]| |]; simpl; congruence.
-  - destruct (dq_group c g0) as [[]| |]; simpl; [now apply IH | congruence | congruence].
+  induction g as [|k1 r IH]; intros H k Hin; [destruct Hin|]. simpl in H.
+  destruct (nth_error c k1) as [[b n bid|]|] eqn:E; try discriminate.
+  destruct (negb (b =? b0)); [discriminate|]. destruct (pair && dq_is_two two k1); [discriminate|].
+  destruct Hin as [<- | Hin]; [eauto | now apply IH].
 Qed.
-Lemma decompose_not_ok_of_group i g :
-  In g (dq_ids i) -> dq_group (dq_circ i) g <> Proceeds -> api_decompose i <> Proceeds.
+Lemma dq_group_ok_DQ two c g :
+  dq_group two c g = Proceeds -> forall k, In k g -> exists b n bid, nth_error c k = Some (DQ b n bid).
 Proof.
-  intros H1 H2. pose proof (dq_groups_not_ok _ _ _ H1 H2) as H.
-  unfold api_decompose, dq_run, api_validate_qpd.
-  destruct (dq_groups (dq_circ i) (dq_ids i)) as [[]| |]; simpl; congruence.
+  unfold dq_group. destruct (negb _); [discriminate|]. destruct g as [|k0 r]; [discriminate|].
+  destruct (nth_error c k0) as [[b0 n0 bid0|]|]; try discriminate. apply dq_members_ok_DQ.
 Qed.
-Lemma dq_members_other_total c b0 g k :
-  In k g -> nth_error c k = Some DOther -> dq_members c b0 g <> Proceeds.
+Lemma dq_groups_ok_DQ two c ids :
+  dq_groups two c ids = Proceeds -> forall g k, In g ids -> In k g -> exists b n bid, nth_error c k = Some (DQ b n bid).
 Proof.
-  induction g as [|k1 r IH]; intros Hin E; [destruct Hin|]. simpl.
-  destruct Hin as [-> | Hin]; [rewrite E; congruence|].
-  destruct (nth_error c k1) as [[b n bid|]|]; try congruence.
-  destruct (b =? b0); [now apply IH | congruence].
+  induction ids as [|g0 r IH]; intros H g k Hg Hk; [destruct Hg|]. simpl in H.
+  destruct (dq_group two c g0) as [[]| |] eqn:E; try discriminate. simpl in H.
+  destruct Hg as [<- | Hg]; [eapply dq_group_ok_DQ; eauto | eapply IH; eauto].
 Qed.
-Lemma dq_group_non_qpd_total c g k : In k g -> nth_error c k = Some DOther -> dq_group c g <> Proceeds.
+Lemma has_dup_false_NoDup l : has_dup l = false -> NoDup l.
 Proof.
-  intros Hin E. unfold dq_group. destruct (negb _); [congruence|].
-  destruct g as [|k0 r]; [congruence|].
-  destruct (nth_error c k0) as [[b n bid|]|]; try congruence. eapply dq_members_other_total; eauto.
+  induction l as [|x r IH]; intro H; [constructor|]. simpl in H. apply orb_false_elim in H as [H1 H2].
+  constructor; [|now apply IH]. intro Hin.
+  assert (T : existsb (Nat.eqb x) r = true) by (apply existsb_exists; exists x; split; [exact Hin | apply Nat.eqb_refl]).
+  congruence.
+Qed.
+Definition qpos (c : list dq_inst) : list nat := filter (fun k => dq_is_qpd (nth k c DOther)) (seq 0 (length c)).
+Lemma filter_map_S_length (g : nat -> bool) L : length (filter g (map S L)) = length (filter (fun k => g (S k)) L).
+Proof. induction L as [|a r IH]; [reflexivity|]. simpl. destruct (g (S a)); simpl; now rewrite IH. Qed.
+Lemma qpos_length c : length (qpos c) = length (filter dq_is_qpd c).
+Proof.
+  unfold qpos. induction c as [|x r IH]; [reflexivity|].
+  change (length (x :: r)) with (S (length r)). rewrite <- cons_seq, <- seq_shift.
+  cbn [filter nth]. rewrite filter_map_S_length.
+  assert (E : filter (fun k => dq_is_qpd (nth (S k) (x :: r) DOther)) (seq 0 (length r))
+              = filter (fun k => dq_is_qpd (nth k r DOther)) (seq 0 (length r))) by reflexivity.
+  destruct (dq_is_qpd x); simpl; rewrite E, IH; reflexivity.
+Qed.
+Lemma qpos_in c k b n bid : nth_error c k = Some (DQ b n bid) -> In k (qpos c).
+Proof.
+  intro E. unfold qpos. apply filter_In. split.
+  - apply in_seq. split; [lia|]. simpl. apply nth_error_Some. congruence.
+  - now rewrite (nth_error_nth c k DOther E).
+Qed.
+Lemma list_sum_length_concat (ids : list (list nat)) : list_sum (map (@length nat) ids) = length (concat ids).
+Proof. induction ids as [|g r IH]; [reflexivity|]. simpl. rewrite app_length. now rewrite IH. Qed.
+Lemma validate_covers i : dq_validate i = Proceeds -> dq_covers (dq_circ i) (dq_ids i).
+Proof.
+  unfold dq_validate, api_validate_qpd. intro H.
+  destruct (dq_groups (dq_two i) (dq_circ i) (dq_ids i)) as [[]| |] eqn:G; try discriminate. simpl in H.
+  destruct (dq_repeated (dq_ids i)) eqn:R; [discriminate|]. simpl in H.
+  destruct (dq_total_mismatch (dq_circ i) (dq_ids i)) eqn:T; [discriminate|].
+  unfold dq_total_mismatch in T. apply Bool.negb_false_iff in T. apply Nat.eqb_eq in T.
+  rewrite list_sum_length_concat, <- qpos_length in T.
+  assert (ND : NoDup (concat (dq_ids i))) by (apply has_dup_false_NoDup; exact R).
+  assert (I1 : incl (concat (dq_ids i)) (qpos (dq_circ i))).
+  { intros k Hk. apply in_concat in Hk as [g [Hg Hk]].
+    destruct (dq_groups_ok_DQ _ _ _ G g k Hg Hk) as [b [n [bid E]]]. eapply qpos_in; eauto. }
+  assert (I2 : incl (qpos (dq_circ i)) (concat (dq_ids i))).
+  { apply NoDup_length_incl; [exact ND | lia | exact I1]. }
+  intros k b n bid E. specialize (I2 k (qpos_in _ _ _ _ _ E)). apply in_concat in I2 as [g [Hg Hk]]. eauto.
+Qed.
+(* F7 frame, unconditional *)
+Lemma dq_frame_total i : api_decompose i <> Proceeds -> dq_final i = dq_circ i.
+Proof.
+  intro Hn. destruct (dq_validate i) as [[]| |] eqn:V.
+  - apply dq_frame; [exact Hn | now apply validate_covers].
+  - unfold dq_final, dq_run. now rewrite V.
+  - unfold dq_final, dq_run. now rewrite V.
 Qed.
 
 (* ---------- separate_circuit ---------- *)
